@@ -84,6 +84,10 @@ def replay(kind, argv):
     if argv:
         patches = [p for p in patches if any(a in p for a in argv)]
     results = {}
+    import queue
+    slots = queue.Queue()
+    for k in range(jobs):
+        slots.put(k)
 
     def one(i_p):
         i, p = i_p
@@ -93,7 +97,11 @@ def replay(kind, argv):
             mj = json.load(open(os.path.join(os.path.dirname(p), 'meta.json')))
             meta = {'property': [mj['property']] + mj.get('also_check', []), 'expect': mj.get('expect', []), 'also-ok': []}
         props = meta['property']
-        res = run_patch(p, props, i % jobs)
+        slot = slots.get()
+        try:
+            res = run_patch(p, props, slot)
+        finally:
+            slots.put(slot)
         return p, meta, res
 
     with concurrent.futures.ThreadPoolExecutor(max_workers=jobs) as ex:
